@@ -53,7 +53,9 @@ TYPE_WORDS = ["Item", "Npc", "NPC", "Coords", "Big", "Thing", "Info", "Map", "Ch
               "HTTP", "Id", "Pair", "Tile", "Spec", "Gfx", "Rec", "Emf", "Eif", "Level", "Guild",
               # words that coincide with package / directory names of the static half: as prefixes they
               # exercise relative-import computation, alone they exercise attribute shadowing
-              "Data", "Encrypt", "Protocol", "Client", "Server", "Net", "Pub", "Packet"]
+              "Data", "Encrypt", "Protocol", "Client", "Server", "Net", "Pub", "Packet",
+              # soft keywords of the interpreter as module names (match.py, case.py, type.py)
+              "Match", "Case", "Vec2D", "SHA256"]
 # a type whose module name equals a subdirectory of its own directory cannot exist on disk
 SUBDIRS = {"": {"net", "map", "pub"}, "net": {"client", "server"}, "pub": {"server"}}
 # type names that would collide with names the static package or generated modules use
@@ -175,6 +177,8 @@ class _Gen:
             c = self.comment()
             if c:
                 v["comment"] = c
+                if self.boolean(0.5):
+                    v["text_after_comment"] = True
             values.append(v)
         d = {"kind": "enum", "name": name, "type": typ, "values": values}
         c = self.comment()
@@ -676,9 +680,11 @@ def _gen_simple_body(self, dir_):
         if k == "int":
             ins["type"] = self.pick(INT_TYPES)
         elif k == "bool":
-            ins["type"] = "bool"
+            ins["type"] = "bool" if self.boolean(0.5) else "bool:" + self.pick(INT_TYPES)
         elif k == "enum":
             ins["type"] = self.pick(enums)
+            if self.boolean(0.3):
+                ins["type"] += ":" + self.pick(INT_TYPES)
         elif k == "struct":
             ins["type"] = self.pick(fixed_structs)
         else:
